@@ -254,7 +254,8 @@ func NewEpoch(epochNum int) {
 		}
 
 		acc := getAccount(ctx, addr)
-		if acc.Until == 0 {
+		if acc.Parent == nil {
+			// not a lock account
 			continue
 		}
 
